@@ -669,6 +669,16 @@ def rule_const(ctx, rep):
             if e[0] == "bin" and e[1] == "xor" and e[3][0] == "c":
                 rep.check(e[3][1] == phase, "C01.const", fl + ".flip=classify-phase", "flip constant 0x%x equals the classifier's phase bit" % phase,
                           "flip toggles 0x%x but the classifier tests 0x%x" % (e[3][1], phase), [s.where()])
+        # layout of the reader word: the nest count occupies the contiguous low bits below the phase bit, and the phase bit sits at (or above)
+        # half the counter's width - the nesting depth the API supports (2^(bits/2) - 1 levels) must not carry into the phase bit, where a
+        # nested reader would look like a reader of the other phase (or quiescent) to the grace period
+        bits = [s.d.get("bits") for s in pat.stores(f, F.gpctr, glob=F.gp) if s.d.get("bits")]
+        pat.require(bits, "%s: width of %s unknown" % (fl, F.gpctr))
+        half = 1 << (bits[0] // 2)
+        rep.check(mask == phase - 1 and phase & (phase - 1) == 0, "C01.const", fl + ".mask=phase-1", "nest mask 0x%x is exactly the bits below the phase bit 0x%x" % (mask, phase),
+                  "nest mask 0x%x is not the contiguous bits below phase bit 0x%x: a nest count can alias the phase bit or be partly ignored" % (mask, phase), [f.name])
+        rep.check(phase >= half, "C01.const", fl + ".phase-above-half-word", "phase bit 0x%x leaves at least %d bits of nest count" % (phase, bits[0] // 2),
+                  "phase bit 0x%x leaves fewer than %d bits for the nest count: read-side nesting deeper than 0x%x carries into the phase bit and the reader is misclassified by the grace period" % (phase, bits[0] // 2, phase - 1), [f.name])
         # read_lock / read_unlock / read_ongoing masks
         for nm in ("read_lock", "read_unlock", "read_ongoing"):
             if nm == "read_unlock" and not F.futex:
